@@ -50,20 +50,22 @@ class Monitor(object):
         self.first_visit[Q.statetracker.hash_state()] = 0
 
     def on_pre_event(self, node, et):
+        if self.cfg.get("judge") == "crash_only":
+            return
         if self.dead:
             self.violate("continued_after_deadlock", {"deadlocked_nodes": sorted(self.dead), "clock": self.hub.Q.current_time, "event": et})
             self.dead = False
 
     def on_boundary(self, Q):
         now = Q.current_time
-        if self.dead:
+        if self.dead and self.cfg.get("judge") != "crash_only":
             # (exact mode has no pre-event seam: a further boundary after a deadlocked one says the same)
             self.violate("continued_after_deadlock", {"deadlocked_nodes": sorted(self.dead), "clock": now, "event": "next boundary"})
             self.dead = False
         self.last_t = now
         st = getattr(self.hub, "last_hash", None)
         truths = self.shadow.truths(Q)
-        if st not in truths:
+        if st not in truths and self.cfg.get("judge") != "crash_only":
             # 'each visited tracker state': the keys of times_to_deadlock are states of the system, not of a drifted counter
             self.violate("visited_state_ne_configuration", {"tracked": str(st), "configuration": str(truths[0]), "clock": now})
         if st not in self.first_visit:
@@ -79,6 +81,9 @@ class Monitor(object):
         self.validated = 1
         if Q is None:
             return
+        if status == "ok" and self.cfg.get("judge") == "crash_only":
+            self.hub.flags.add("ttd_checked")
+            return
         if status == "ok":
             if not self.dead:
                 blocked = [(nd.id_number, i.id_number, i.destination) for nd in Q.transitive_nodes for i in nd.all_individuals if i.is_blocked]
@@ -89,8 +94,12 @@ class Monitor(object):
             if set(ttd) != set(self.first_visit):
                 self.violate("times_to_deadlock_keys_ne_visited_states", {"keys": [str(k) for k in ttd], "visited": [str(k) for k in self.first_visit]})
                 return
+            from fractions import Fraction
+
+            def Fd(x):            # decimal reading: in exact mode the clock is a float at shift changes
+                return Fraction(str(x))
             for s, t0 in self.first_visit.items():
-                if ttd[s] != td - t0 or ttd[s] < 0:
+                if Fd(ttd[s]) != Fd(td) - Fd(t0) or ttd[s] < 0:
                     self.violate("time_to_deadlock_wrong", {"state": str(s), "reported": ttd[s], "first_visit": t0, "deadlock_at": td})
                     return
             self.hub.flags.add("ttd_checked")
@@ -188,6 +197,14 @@ def focused(tier):
     for c, caps in (((1, 1), (0, 0)), ((2, 1), (1, 0))):
         mk("cycle2 c=%s caps=%s exact=12" % (c, caps), [node(c=c[0], cap=caps[0]), node(c=c[1], cap=caps[1])],
            {"A": klass([ARR, None], [[1.0, 2.0], [1.0, 0.5]], route=matrix([[0.0, 1.0], [1.0, 0.0]]))}, exact=12)
+    # (beyond the statement's integer servers) exact arithmetic + a 'reroute' schedule: tracker states are first visited AT a
+    # shift change, where the exact-mode clock is a float.  Only crash-freedom of the entry point is judged here: with
+    # schedules the detector and the fix-point oracle use different notions (capacity from the initial shift, edges of
+    # dismissed servers), which the statement does not cover.
+    mk("cycle2 with schedule [2,1] reroute exact=14 (crash-freedom only)",
+       [node(c={"sched": {"numbers": [2, 1], "ends": [1.5, 3.0], "preempt": "reroute"}}, cap=1), node(c=1, cap=0)],
+       {"A": klass([[0.25, 0.5], None], [[1.0, 2.0], [1.0, 0.5]], route=matrix([[0.0, 1.0], [1.0, 0.0]]))}, exact=14, judge="crash_only")
+    out[-1]["max_events"] = E + 8
     # (beyond the statement's 'finite integer servers': a non-pre-emptive schedule with an overtime server in the cycle)
     mk("cycle2 with schedule [1,1] at node 1", [node(c={"sched": {"numbers": [1, 1], "ends": [2.0, 4.0], "preempt": False}}, cap=0), node(c=1, cap=0)],
        {"A": klass([ARR, None], [[3.0, 1.0], [1.0, 2.0]], route=matrix([[0.0, 1.0], [1.0, 0.0]]))})
